@@ -271,6 +271,33 @@ type relayDouble struct {
 	mode string
 	reqs []relayReq
 	wg   sync.WaitGroup
+
+	// hold: the next request is kept waiting (after it has been read and recorded)
+	// until the harness releases it; arrived is closed when that request is being held.
+	hold    bool
+	arrived chan struct{}
+	release chan struct{}
+}
+
+// armHold makes the relay hold its next request.
+func (r *relayDouble) armHold() (arrived <-chan struct{}) {
+	r.mu.Lock()
+	defer r.mu.Unlock()
+	r.hold = true
+	r.arrived = make(chan struct{})
+	r.release = make(chan struct{})
+	return r.arrived
+}
+
+// releaseHold lets a held request go and disarms the hold.
+func (r *relayDouble) releaseHold() {
+	r.mu.Lock()
+	defer r.mu.Unlock()
+	r.hold = false
+	if r.release != nil {
+		close(r.release)
+		r.release = nil
+	}
 }
 
 var (
@@ -296,6 +323,8 @@ func relays(n int, w *world) []*relayDouble {
 		r.w = w
 		r.mode = ""
 		r.reqs = nil
+		r.hold = false
+		r.release = nil
 		r.mu.Unlock()
 	}
 	return res
@@ -318,7 +347,19 @@ func (r *relayDouble) handle(rw http.ResponseWriter, req *http.Request) {
 		step = r.w.curStep()
 	}
 	r.reqs = append(r.reqs, relayReq{Step: step, Method: req.Method, Path: req.URL.Path, Body: body})
+	var release chan struct{}
+	if r.hold {
+		r.hold = false // only this request
+		release = r.release
+		close(r.arrived)
+	}
 	r.mu.Unlock()
+	if release != nil {
+		select {
+		case <-release:
+		case <-req.Context().Done():
+		}
+	}
 	switch mode {
 	case "500":
 		rw.Header().Set("Content-Type", "application/json")
